@@ -450,10 +450,26 @@ def check_read_int(run, rule):
     pname = "p:%s" % f["params"][0]["n"]
     # ai <= 23 -> returns ai itself
     st = ir.stmts(f["body"])
+    from .. import assembly as _asm
+    garrays = {}
+    for gv in facts.vars:
+        il_ = unwrap_all_casts(gv.get("init")) if gv.get("init") is not None else None
+        if gv.get("const") and isinstance(il_, dict) and il_.get("k") == "InitList":
+            vals_ = [const_value(c_) for c_ in il_.get("c", [])]
+            if vals_ and all(isinstance(x_, int) for x_ in vals_):
+                garrays[gv["qn"]] = vals_
+                garrays[gv["qn"].split("::")[-1]] = vals_
     for ai in (0, 1, 23):
         env = {pname: ai}
         r = minieval.run_straightline(st, env, enums)
         ok = r[0] == "return" and path(r[1].get("e")) == (pname,)
+        if not ok:
+            # the value may come back through a table / switch: every path returns the constant ai and takes no byte
+            try:
+                ps_ = _asm.explore(f, pname, ai, 0, enums, arrays=garrays)
+                ok = bool(ps_) and all(p_[0] == "const" and p_[1] == ai and p_[2] == 0 for p_ in ps_)
+            except minieval.Unknown:
+                pass
         run.ob(rule, "read_int:ai=%d" % ai, ok, f, f["line"], "ai %d yields the value itself" % ai if ok else "ai %d does not return the value itself" % ai,
                nontrivial=False)
     # 24..27: locate loop, evaluate count and shifts
@@ -523,7 +539,7 @@ def check_read_int(run, rule):
     try:
         for ai, want in ((24, 1), (25, 2), (26, 4), (27, 8)):
             try:
-                tab[ai] = assembly.explore(f, pname, ai, want, enums)
+                tab[ai] = assembly.explore(f, pname, ai, want, enums, arrays=garrays)
             except assembly.OutOfWindow as ow:
                 tab[ai] = [("outside", str(ow), 0, ow.choices)]
     except minieval.Unknown as ex:
